@@ -41,7 +41,7 @@ func (o c07Op) String() string {
 	return fmt.Sprintf("%s(%s)", o.Kind, o.ID)
 }
 
-var c07EagerKinds = []string{"fast", "err", "nope", "rpc", "slow-open", "slow-cancel", "batch"}
+var c07EagerKinds = []string{"fast", "err", "errA", "errB", "errC", "nope", "rpc", "slow-open", "slow-cancel", "batch"}
 
 var c07Methods = []string{"slow", "fast", "err", "nope", "rpc"}
 
@@ -84,11 +84,39 @@ func (h *c07H) handler() jrpc2.Handler {
 		vs.Yield("h_exit")
 		vs.Note("h_exit", req.Method(), req.ID(), tok, ctxErrStr(ctx))
 		if strings.HasPrefix(req.Method(), "err") {
-			return nil, jrpc2.Errorf(jrpc2.Code(77), "failed %s", tok)
+			if strings.HasPrefix(req.Method(), "errC") {
+				return nil, c07CodeErr{tok}
+			}
+			return nil, jrpc2.Errorf(jrpc2.Code(c07ErrCode(req.Method())), "failed %s", tok)
 		}
 		return tok, nil
 	}
 }
+
+// c07ErrCode is the code the "err..." handler fails with. It depends on the
+// method name only, so that the codes the server itself uses for requests it
+// refuses (-32600, -32601, -32700) also occur as the outcome of a handler that
+// did run: the id of such a call must be released like any other.
+func c07ErrCode(method string) int {
+	tag := strings.TrimPrefix(method, "err")
+	switch {
+	case strings.HasPrefix(tag, "A"):
+		return -32600
+	case strings.HasPrefix(tag, "B"):
+		return -32700
+	case strings.HasPrefix(tag, "C"):
+		return -32601
+	}
+	n := 0
+	fmt.Sscanf(tag, "%d", &n)
+	return []int{-32601, -32600, -32700, 77}[n%4]
+}
+
+// c07CodeErr is an error that is not a *jrpc2.Error but reports a code.
+type c07CodeErr struct{ tok string }
+
+func (e c07CodeErr) Error() string        { return "failed " + e.tok }
+func (e c07CodeErr) ErrCode() jrpc2.Code { return -32601 }
 
 func c07History(first c07Op, length int, withStop bool, b Bounds) *Scenario {
 	name := fmt.Sprintf("histories len<=%d first=%s", length, first)
@@ -369,7 +397,7 @@ func c07Check(x *vs.Exec) []Viol {
 					}
 				}
 			case "err":
-				if c, ok := firstCode(outs); len(outs) != 1 || !ok || c != 77 {
+				if c, ok := firstCode(outs); len(outs) != 1 || !ok || c != c07ErrCode(mname) {
 					if len(outs) == 0 || !isDupErr(outs[0]) {
 						v = append(v, Viol{"C07.R2", desc + ": expected the handler's error reply, got " + strings.Join(outRaw, " ")})
 					}
